@@ -14,6 +14,7 @@ def B(*bs): return {"k": "bin", "b": list(bs)}
 
 def spawn(dst, script, *args): return {"op": "spawn", "dst": dst, "script": script, "args": list(args)}
 def send(to, val): return {"op": "send", "to": to, "val": val}
+def retsend(to, val): return {"op": "retsend", "to": to, "val": val}   # a send as the LAST step: the process finishes in the same slice
 def select(dst, *srcs): return {"op": "select", "dst": dst, "srcs": list(srcs)}
 def fail(e="InvalidArgument:Division by zero"): return {"op": "fail", "e": e}
 def ret(val): return {"op": "ret", "val": val}
@@ -95,6 +96,8 @@ class Renderer:
                 caps = [q_expr(a, sid) for a in op["args"]]
                 body = self.script(op["script"], caps)
                 steps.append("s%dr%d = @#{ %s }" % (sid, op["dst"], ", ".join(body)))
+            elif o == "retsend":
+                steps.append("%s s%dr%d" % (q_expr(op["val"], sid), sid, op["to"]))
             elif o == "send":
                 steps.append("%s s%dr%d" % (q_expr(op["val"], sid), sid, op["to"]))
             elif o == "select":
